@@ -1,6 +1,15 @@
 HOOK_COMMITS = ["6c92ace"]
 NOT_APPLICABLE = {}
 CHECKS = {
+ "C03": {
+  "text": "Coq: verified checkers for what a conflict graph claims: truthfulb_sound (every edge states a true provider fact; requires groups show exactly the requirement's candidates or the unresolved node), reachableb_sound, refutesb_sound (the displayed facts + one-per-package on forbid-joined nodes admit no assignment installing the root; decided by unit propagation + splitting proven sound), check_core_sound (the clause ids reported in the Conflict, learnt clauses expanded through RUP-certified antecedents, are unsatisfiable with the root). Every Unsolvable's public ConflictGraph and hook core go through the extracted checkers.",
+  "technique": "Coq-verified graph checkers (truthfulness, reachability, refutation by sound propagation+splitting, RUP core certificate) applied to the implementation's conflict graphs",
+ },
+ "C06": {
+  "text": "Every case is solved in several separate processes (per-process ahash seeds), debug and release, twice per process with fresh solvers: solution order, provider call order, conflict graph, graphviz and message text must be identical. A census of hash-container iteration sites in the anchored files is compared with a committed list that records why each site cannot leak its order (the order-independence of ConflictGraph::simplify is a theorem of the renderer model).",
+  "technique": "cross-process / cross-instance differential execution + hash-iteration census (order-independence theorem for simplify in the renderer model)",
+  "note": "A Gallina function is deterministic by construction; the content of this property is in the execution and the census.",
+ },
  "C09": {
   "text": "Coq: declarative predicates over provider-call histories (Causal, Once, Exact in Async/History.v) with executable checkers proven equivalent for every provider and every history (causalb_spec, onceb_spec, exactb_spec). The real solver's call history (no hints; 1-3 solves per solver; sync and yielding runtimes) is judged by the extracted checkers; exactness is checked whenever the verified greedy oracle applies.",
   "technique": "Coq-verified history checkers (checker <-> declarative trace predicate) applied to provider-call histories of the implementation",
